@@ -8,7 +8,7 @@
 
 use crate::core::*;
 use crate::explore::Chooser;
-use crate::props::c01::{family_tag, kind_ok_tag, ref_self_check, space_rule, write_lib, FAMILY_TAGS, F_EVEN_NUL, OK_KIND_TAGS};
+use crate::props::c01::{families, family_tag, kind_ok_tag, ref_self_check, require_families, space_rule, write_lib, F_EVEN_NUL, OK_KIND_TAGS};
 use crate::props::gdsgen::*;
 use crate::refmodel::gdsstream as gs;
 use serde_json::{json, Value};
@@ -51,7 +51,7 @@ impl CaseDriver for C02 {
         t.pick(1, 2)
     }
     fn gen(&self, t: Tier, c: &mut Chooser) -> GenCase {
-        gen_lib(t, c, &[0, 1, 2, 3, 4])
+        gen_lib(t, c, families(t))
     }
     fn check(&self, case: &GenCase, key: &str, cx: &mut Cx) {
         if !ref_self_check(cx) {
@@ -116,10 +116,10 @@ impl CaseDriver for C02 {
     fn render(&self, case: &GenCase) -> Value {
         json!({"family": case.family, "library": render_lib(&case.lib)})
     }
-    fn guards(&self, _t: Tier, stats: &Stats, _d: u64) -> Result<(), String> {
+    fn guards(&self, t: Tier, stats: &Stats, _d: u64) -> Result<(), String> {
         require_tags(stats, REQUIRED_TAGS)?;
         require_tags(stats, OK_KIND_TAGS)?;
-        require_tags(stats, FAMILY_TAGS)?;
+        require_families(t, stats)?;
         require_outcomes(stats, &["ok", "write-err:record-too-long"])?;
         let ok = stats.outcomes.get("ok").copied().unwrap_or(0);
         if ok * 2 < stats.executions {
